@@ -160,19 +160,37 @@ fn pairs(k: usize, i: usize, j: usize) {
 //@ props: C14
 //@ timeout: 1200
 //@ harness: c14_pairs_0, c14_pairs_1, c14_pairs_2, c14_pairs_3, c14_pairs_4, c14_pairs_5, c14_pairs_6, c14_pairs_7, c14_pairs_8
-//@ desc: container pairs: [s1,x] vs [s2,y] (string prefix then more elements); [n2,x] vs [n9,y,s]; {k:x} vs {kk:y}; {k:n2,kk:x} vs {k':n9,kk':y}; [[x],y] vs [[x',y']]; [{k:n},s,x] vs [{k':n',k'':y}]; [x] vs {k:y}; [[],x] vs [{},y]; {k:[x]} vs {k':{j:y}}; x,y case-split 3x3; key order == compare outside the recorded classes
+//@ desc: container pairs: [s1,x] vs [s2,y] (string prefix then more elements); [n2,x] vs [n9,y,s]; {k:x} vs {kk:y}; {k:n2,kk:x} vs {k':n9,kk':y}; [[x],y] vs [[x',y']]; [{k:n},s,x] vs [{k':n',k'':y}]; [x] vs {k:y}; [[],x] vs [{},y]; {k:[x]} vs {k':{j:y}}; x,y case-split over {number width 2, 1-byte string} (quick) / plus null (thorough); key order == compare outside the recorded classes
 //@ fns: convert_to_comparable, array_convert_to_comparable, object_convert_to_comparable, scalar_convert_to_comparable, compare
 //@ bounds: depth 2, <= 3 children, strings/keys <= 2 bytes
 //@ stubs: parse_value -> panic | drop_in_place -> no-op
-harness!(c14_pairs_0, split2(3, 3, |i, j| pairs(0, i, j)));
-harness!(c14_pairs_1, split2(3, 3, |i, j| pairs(1, i, j)));
-harness!(c14_pairs_2, split2(3, 3, |i, j| pairs(2, i, j)));
-harness!(c14_pairs_3, split2(3, 3, |i, j| pairs(3, i, j)));
-harness!(c14_pairs_4, split2(3, 3, |i, j| pairs(4, i, j)));
-harness!(c14_pairs_5, split2(3, 3, |i, j| pairs(5, i, j)));
-harness!(c14_pairs_6, split2(3, 3, |i, j| pairs(6, i, j)));
-harness!(c14_pairs_7, split2(3, 3, |i, j| pairs(7, i, j)));
-harness!(c14_pairs_8, split2(3, 3, |i, j| pairs(8, i, j)));
+harness!(c14_pairs_0, split2(2, 2, |i, j| pairs(0, i, j)));
+harness!(c14_pairs_1, split2(2, 2, |i, j| pairs(1, i, j)));
+harness!(c14_pairs_2, split2(2, 2, |i, j| pairs(2, i, j)));
+harness!(c14_pairs_3, split2(2, 2, |i, j| pairs(3, i, j)));
+harness!(c14_pairs_4, split2(2, 2, |i, j| pairs(4, i, j)));
+harness!(c14_pairs_5, split2(2, 2, |i, j| pairs(5, i, j)));
+harness!(c14_pairs_6, split2(2, 2, |i, j| pairs(6, i, j)));
+harness!(c14_pairs_7, split2(2, 2, |i, j| pairs(7, i, j)));
+harness!(c14_pairs_8, split2(2, 2, |i, j| pairs(8, i, j)));
+
+//@ props: C14
+//@ tier: thorough
+//@ timeout: 7200
+//@ harness: c14_pairs_0_w, c14_pairs_1_w, c14_pairs_2_w, c14_pairs_3_w, c14_pairs_4_w, c14_pairs_5_w, c14_pairs_6_w, c14_pairs_7_w, c14_pairs_8_w
+//@ desc: the nine container-pair families with all 3x3 class pairs (number width 2, 1-byte string, null)
+//@ fns: convert_to_comparable, compare
+//@ bounds: depth 2
+//@ stubs: parse_value -> panic | drop_in_place -> no-op
+harness!(c14_pairs_0_w, split2(3, 3, |i, j| pairs(0, i, j)));
+harness!(c14_pairs_1_w, split2(3, 3, |i, j| pairs(1, i, j)));
+harness!(c14_pairs_2_w, split2(3, 3, |i, j| pairs(2, i, j)));
+harness!(c14_pairs_3_w, split2(3, 3, |i, j| pairs(3, i, j)));
+harness!(c14_pairs_4_w, split2(3, 3, |i, j| pairs(4, i, j)));
+harness!(c14_pairs_5_w, split2(3, 3, |i, j| pairs(5, i, j)));
+harness!(c14_pairs_6_w, split2(3, 3, |i, j| pairs(6, i, j)));
+harness!(c14_pairs_7_w, split2(3, 3, |i, j| pairs(7, i, j)));
+harness!(c14_pairs_8_w, split2(3, 3, |i, j| pairs(8, i, j)));
 
 /// order of two doubles as the key format images them: -0.0 below 0.0, NaN greatest
 fn image_cmp(x: f64, y: f64) -> Ordering {
